@@ -281,11 +281,12 @@ impl StateRanking for ByteRank { type State = u8; fn compare(&self, a: &u8, b: &
 fn exec_fringe_history<F: Fringe<State = u8>>(f: F, dedup: bool, ops: &[FringeOp], agg: &mut Agg) -> Vec<Violation> {
     let mut cf = CheckedFringe::new(f, dedup);
     for (i, op) in ops.iter().enumerate() {
-        match op {
+        let r = std::panic::catch_unwind(std::panic::AssertUnwindSafe(|| match op {
             FringeOp::Push { state, depth, value, ub } => cf.push(SubProblem { state: Arc::new(*state), value: *value, path: vec![Decision { variable: Variable(i), value: *value }], ub: *ub, depth: *depth }),
             FringeOp::Pop => { let _ = cf.pop(); }
             FringeOp::Clear => cf.clear(),
-        }
+        }));
+        if let Err(e) = r { let m = e.downcast_ref::<String>().cloned().or_else(|| e.downcast_ref::<&str>().map(|s| s.to_string())).unwrap_or_default(); cf.errors.push(format!("operation #{i} ({:?}) panicked: {m}", op)); }
         if !cf.errors.is_empty() { break; }
     }
     // nothing lost, nothing invented: drain and compare
